@@ -653,7 +653,7 @@ def run(ctx):
     drv = ctx.driver("drv_c27")
     exe = ctx.harness("harness/c/engine_repl.c", "engine_repl", deps=["harness/mjbuild.h"])
     if drv and exe:
-        stats, mism = run_models(ctx, exe, drv, 50 if quick else 2000)
+        stats, mism = run_models(ctx, exe, drv, 50 if quick else 600)
         ok = stats["bitwise_bad"] == 0 and stats["bitwise_cases"] > 0
         ctx.oblige("correspondence Lean actuation model (Float) vs act_dot / actuator_force / qfrc_actuator of the real engine, bitwise, stage by stage (%d cases, %d models)"
                    % (stats["bitwise_cases"], stats["models_compared"]), "correspondence", ok, json.dumps(mism[:4])[:3000])
